@@ -38,10 +38,19 @@ def _alphabet(v, d, model):
                 ops.append({"op": "path_to_dict", "path": p, "type": label, "config": c})
                 ops.append({"op": "path_to_dict", "path": p, "type": rng.choice(v.labels), "config": c})
         ops.append({"op": "sid_call", "from": {"s": s}, "m": "path"})
+    # Sid OBJECTS handed to the cached entry points (as Finders / Getters do), next to their plain strings
+    for _ in range(6):
+        label, s, fields = v.typed_sid(search=0.6)
+        others = [l for l in v.labels if len(v.tdict[l]) == len(fields)]
+        forced = rng.choice(others + [label])
+        ops.append({"op": "sid", "obj": {"s": forced + ":" + s}})
+        ops.append({"op": "sid", "obj": {"s": s}})
+        ops.append({"op": "sid", "s": s})
+        ops.append({"op": "sid_call", "from": {"obj": {"s": forced + ":" + s}}, "m": "uri"})
     sg = gen.SearchGen(v)
     L, leaves = gen.universe(v)
     for _ in range(6):
-        srch = sg.search(base=rng.choice(leaves), allow_gt=False, malformed=0.0)
+        srch = sg.search(base=rng.choice(leaves), allow_gt=rng.random() < 0.4, malformed=0.0)
         for u in (False, True):
             for x in (False, True):
                 ops.append({"op": "unfold_search", "s": srch, "u": u, "x": x})
@@ -153,3 +162,160 @@ def replay_C13(d, inp):
 
 SPECIAL = {"C13": oracle_C13}
 REPLAY = {"C13": replay_C13}
+
+
+# ------------------------------------------------------------------------------------------ C20
+
+import os, collections
+import stage as _stage, gen_conf, gen_lean, oracle_inputs
+
+C20_FAMILIES = [("sid_strings", 600), ("sid_forms", 120), ("query", 400), ("paths", 80), ("unfold", 400), ("listfind", 300)]
+C20_ORACLES = [("C01", 500), ("C02", 300), ("C03", 300), ("C04", 300), ("C05", 200), ("C06", 200), ("C07", 300), ("C08", 60), ("C11", 6)]
+
+
+def _alt_conf(seed, idx):
+    rng = random.Random("C20/%s/%d" % (seed, idx))
+    spec = gen_conf.make_spec(rng, idx)
+    d = gen_conf.write_package(spec, os.path.join(_stage.scratch_base(), "altconf_%s_%d" % (seed, idx)))
+    st = _stage.stage(conf_src=d, tag="alt")
+    c, err = core.extract(st)
+    return spec, st, c, err
+
+
+def _gen_ops(fam, v, n, d):
+    import inspect
+    f = families.FAMILIES[fam]
+    if len(inspect.signature(f).parameters) == 3:
+        return f(v, n, lambda ops: core.run_model(d, ops))
+    return f(v, n)
+
+
+def _gen_oracle_ops(name, v, n, d):
+    import inspect
+    g = oracle_inputs.GENERATORS[name]
+    if len(inspect.signature(g).parameters) == 3:
+        return g(v, n, lambda ops: core.run_model(d, ops))
+    return g(v, n)
+
+
+def _alt_lean(confs):
+    """render the generated configurations as Lean and state their well-formedness obligations"""
+    gen_dir = os.path.join(core.LEAN, "Spil", "Generated")
+    names = []
+    for i, c in enumerate(confs):
+        name = "alt%d" % i
+        text = gen_lean.render(c, name=name)
+        path = os.path.join(gen_dir, "Alt%d.lean" % i)
+        if not os.path.exists(path) or open(path).read() != text:
+            open(path, "w").write(text)
+        names.append(name)
+    lines = ["/- GENERATED on every C20 run: kernel-checked conventions of the generated configurations -/"]
+    lines += ["import Spil.Generated.Alt%d" % i for i in range(len(confs))]
+    lines += ["import Spil.Spec.Sid", "import Spil.Props.Tie", "open Generated", "namespace AltWF"]
+    for i, (n, c) in enumerate(zip(names, confs)):
+        lines.append("theorem %s_wf : Spec.sidHierOk %sEnv %sConf.sid.templates = true := by decide +kernel" % (n, n, n))
+        lines.append("theorem %s_compile : Tie.compiled %sSidTemplates = %sSidRegexes := by decide +kernel" % (n, n, n))
+        lines.append("theorem %s_extrapolate : ConfUtil.patternReplacing (ConfUtil.extrapolateTemplates %sSidConf.sep %sRawTemplates %sToExtrapolate) %sRawKeyPatterns = %sEffectiveTemplates := by decide +kernel" % (n, n, n, n, n, n))
+        for pc in c["conf"]["paths"]:
+            pn = "%sPath_%s" % (n, pc["name"])
+            lines.append("theorem %s_compile : Tie.compiled %sTemplates = %sRegexes := by decide +kernel" % (pn, pn, pn))
+    lines.append("end AltWF")
+    path = os.path.join(gen_dir, "AltWF.lean")
+    text = "\n".join(lines) + "\n"
+    if not os.path.exists(path) or open(path).read() != text:
+        open(path, "w").write(text)
+    return [l.split()[1] for l in lines if l.startswith("theorem ")]
+
+
+def oracle_C20(run, n):
+    fails = []
+    stats = collections.Counter()
+    confs, envs, specs = [], [], []
+    for idx in range(n):
+        spec, st, c, err = _alt_conf(run.seed, idx)
+        if c is None:
+            stats["outside_translated_subset"] += 1
+            run.notes.append("generated configuration %d is outside the translated subset: %s" % (idx, (err or "")[-300:]))
+            continue
+        hier = core.run_model(c, [{"op": "spec_hier_ok"}])[0]
+        if hier.get("ok") is not True:
+            stats["not_conventional"] += 1
+            run.notes.append("generated configuration %d does not satisfy sidHierOk (generator bug): skipped" % idx)
+            continue
+        confs.append(c); envs.append(st); specs.append(idx)
+    # kernel obligations for the first two generated configurations (all of them in the thorough tier)
+    k = len(confs) if run.tier == "thorough" else min(2, len(confs))
+    thms = _alt_lean(confs[:k])
+    ok, out = core.lake_build(["Spil.Generated.AltWF"])
+    run.cov["obligations"] = run.cov.get("obligations", 0) + len(thms)
+    if ok:
+        run.cov["discharged"] = run.cov.get("discharged", 0) + len(thms)
+        stats["kernel_wf_obligations"] = len(thms)
+    else:
+        fails.append(("C20", {"alt": specs[:k], "obligation": "AltWF"}, ["kernel obligations of the generated configurations do not check: " + out[-800:]]))
+    for idx, c, st in zip(specs, confs, envs):
+        scale = 1.0 if run.tier == "quick" else 6.0
+        for fam, nn in C20_FAMILIES:
+            rng = random.Random("C20/%s/%d/%s" % (run.seed, idx, fam))
+            v = gen.Vocab(c, rng)
+            ops = _gen_ops(fam, v, int(nn * scale), c)
+            m = core.run_model(c, ops)
+            i = core.run_impl(ops, st=st)
+            for op, a, b in zip(ops, m, i):
+                stats["ops"] += 1
+                if a.get("oom"):
+                    continue
+                r = core.agree(op, a, b)
+                if r:
+                    stats["disagreements"] += 1
+                    fails.append(("C20", {"alt": idx, "family": fam, "op": op}, ["model and implementation disagree under generated configuration %d: %s" % (idx, r)]))
+                    break
+                run.nontrivial.add(core.digest([idx, op]))
+            run.cov["evaluations"] += len(ops)
+        for name, nn in C20_ORACLES:
+            rng = random.Random("C20/%s/%d/o/%s" % (run.seed, idx, name))
+            v = gen.Vocab(c, rng)
+            ops = [o for o in _gen_oracle_ops(name, v, int(nn * scale), c) if "hamlet" not in json.dumps(o["input"])]
+            res = core.run_impl(ops, st=st)
+            for op, r in zip(ops, res):
+                stats["oracle_inputs"] += 1
+                f = r.get("ok") if "ok" in r else ["oracle crashed: %s" % r.get("msg", r)]
+                if isinstance(f, dict):
+                    f = f["failures"]
+                if f:
+                    stats["oracle_failures"] += 1
+                    fails.append(("C20", {"alt": idx, "oracle": name, "input": op["input"]}, f))
+                    break
+                run.nontrivial.add(core.digest([idx, op["input"]]))
+            run.cov["evaluations"] += len(ops)
+        stats["configurations"] += 1
+    run.cov["oracles"]["C20"] = dict(stats)
+    if confs:
+        run.cov["samples"].append({"generated_configuration": specs[0],
+                                   "types": [l for l, _ in confs[0]["conf"]["sid"]["templates"]],
+                                   "path_configs": [p["name"] for p in confs[0]["conf"]["paths"]]})
+    return fails
+
+
+def replay_C20(d, inp):
+    """re-run the recorded operation / oracle input under the regenerated configuration"""
+    seed = inp.get("seed", os.environ.get("VERIF_SEED", "1"))
+    spec, st, c, err = _alt_conf(int(seed), int(inp["alt"]) if not isinstance(inp["alt"], list) else int(inp["alt"][0]))
+    if c is None:
+        return ["configuration could not be regenerated: %s" % err]
+    if "op" in inp:
+        m = core.run_model(c, [inp["op"]])[0]
+        i = core.run_impl([inp["op"]], st=st)[0]
+        r = core.agree(inp["op"], m, i)
+        return [r] if r else []
+    if "oracle" in inp:
+        r = core.run_impl([{"op": "oracle", "prop": inp["oracle"], "input": inp["input"]}], st=st)[0]
+        f = r.get("ok") if "ok" in r else [str(r)]
+        return f["failures"] if isinstance(f, dict) else f
+    return ["kernel obligations: rebuild Spil.Generated.AltWF"]
+
+
+REPLAY["C20"] = replay_C20
+
+
+SPECIAL["C20"] = oracle_C20
